@@ -345,6 +345,11 @@ func (sc *StorageCar) Put(ctx context.Context, keyStr string, data []byte) error
 	}
 	n := uint64(w.Position())
 	if err := util.LdWrite(w, keyCid.Bytes(), data); err != nil {
+		if sc.dataWriter != nil {
+			// Do not stay behind a partially written section: the next section must start
+			// where this one did, or every later block would follow garbage.
+			_, _ = sc.dataWriter.Seek(int64(n), io.SeekStart)
+		}
 		return err
 	}
 	idx.InsertNoReplace(keyCid, n)
